@@ -49,6 +49,18 @@ PROPS = {
   "note": TB + "when_any, retry_when, repeat_effect_until, into_variant, variant_sender, defer/just_from, via/on, sync_wait are not in the Calc model yet; values are ints.",
   "design_ref": "5/C05",
  },
+ "C06": {
+  "claimed": True, "drivers": [],
+  "technique": "Coq proofs (inductive invariants over all schedules; parametric numbers of producers/items/workers; recursive evaluator for the trampoline) + K1 lock-step with the real manual_event_loop/single_thread_context, atomic_intrusive_queue, static_thread_pool, new_thread_context under mutex/condvar/thread shims, K3 differential for trampoline_scheduler",
+  "text": ("Theorems for ALL numbers of producers, items, workers, ALL schedules including spurious wake-ups: every item is executed at most once, exactly once at the end, on the worker thread, "
+           "in FIFO order of the enqueue critical sections (single-threaded loop); items accepted before stop() are always run; no lost wake-up (a waiting worker implies an empty queue or a "
+           "pending notify); run() returns only if stopped and empty; done instead of value iff stop was requested first; the atomic queue loses and duplicates nothing and tells exactly one "
+           "producer to wake the consumer; the thread pool's pop returns null only if empty and stopped; new_thread_context's destructor waits for every thread; the trampoline never nests "
+           "deeper than its depth and runs every deferred item exactly once before the outermost start() returns (all depths, all operation trees). Thread-pool join progress is PARTIAL "
+           "(safety half proved). Tie: K1 lock-step incl. every mutex/condvar operation; 572 trampoline programs compared exactly."),
+  "note": TB + "OS thread creation/join and std::mutex/condition_variable semantics are modelled (lock + wait-set with spurious wake-ups), not verified. inline_scheduler/any_scheduler/schedule_with_subscheduler not covered; timed loops are C07.",
+  "design_ref": "5/C06",
+ },
  "C07": {
   "claimed": True, "drivers": [],
   "technique": "Coq proofs: exact integer arithmetic of time_point (lia/nia over Z), stable sorted insertion (induction), TimerQueue interleaving model with a virtual clock (invariants over all schedules) + K3 function differential and K1 lock-step with the real timed_single_thread_context / thread_unsafe_event_loop",
